@@ -56,7 +56,7 @@ class Group:
                  wrap_checks=False, kind="proof", timeout=900, bound=None,
                  must_fail=(), expect_classes=(), replay=None, tiers=("quick", "thorough"),
                  functions=(), extra_cbmc=(), note="", safety=True, assumed=(),
-                 drop_unused=False, object_bits=None, nondet_static=False, trace=True):
+                 drop_unused=False, object_bits=None, nondet_static=False, trace=True, lift=None):
         self.name = name
         self.props = list(props)
         self.harness = harness
@@ -77,6 +77,7 @@ class Group:
         self.timeout = timeout
         self.must_fail = list(must_fail)        # obligations that MUST be refuted (substring of description)
         self.expect_classes = list(expect_classes)
+        self.lift = lift      # (asm path relative to /repo, [--fn=... signatures]): lifted to C into the build dir on every run
         self.replay = replay
         self.tiers = tiers
         self.functions = list(functions) or ([enforce] if enforce else [])
@@ -151,6 +152,16 @@ def run_group(g, reach=False, keep=False):
         defs = ["-D" + GUARD] + CONFIGS[g.cfg] + ["-D" + x for x in g.defs]
         if reach:
             defs.append("-DVERIF_REACH")
+        if g.lift:
+            lifted = os.path.join(d, "lifted.c")
+            cmd = ["python3", os.path.join(VERIF, "tools", "lift_x86_64.py"), os.path.join(REPO, g.lift[0]), lifted] + list(g.lift[1]) + \
+                  ["--cpp=" + x for x in CONFIGS[g.cfg]] + ["--cpp=-D" + x for x in g.defs if x.startswith("ASCON_")]
+            rc, out, err, dt = _run(cmd, d, 120, logf)
+            r.cmds.append(" ".join(cmd))
+            if rc != 0 or not os.path.exists(lifted):
+                r.error = "assembly extraction failed: " + (err or out)[-1500:]
+                return r
+            defs.append('-DVERIF_LIFTED="%s"' % lifted)
         cc = ["goto-cc"] + defs + include_flags()
         for c in g.contracts:
             cc += ["-include", os.path.join(VERIF, c)]
@@ -228,7 +239,7 @@ def run_group(g, reach=False, keep=False):
             us = [(u.replace(g.enforce + ".", g.enforce + "_wrapped_for_contract_checking.", 1)
                    if g.enforce and u.startswith(g.enforce + ".") else u) for u in g.unwindset]
             cb += ["--unwindset", ",".join(us)]
-        if g.unwind is not None or g.unwindset:
+        if (g.unwind is not None or g.unwindset) and "--no-unwinding-assertions" not in g.extra_cbmc:
             cb += ["--unwinding-assertions"]
         if g.object_bits:
             cb += ["--object-bits", str(g.object_bits)]
